@@ -324,7 +324,14 @@ fn parse_tuple_literal_or_parentheses(
             }
 
             let start_idx = tokens.idx;
-            exprs.push(parse_expression(tokens, id_gen, diagnostics));
+            let expr = parse_expression(tokens, id_gen, diagnostics);
+            if expr.expr_.is_invalid_or_placeholder() {
+                // No expression here, e.g. `(1, }`. The error has
+                // already been reported and no tokens were consumed.
+                break;
+            }
+
+            exprs.push(expr);
             assert!(
                 tokens.idx > start_idx,
                 "The parser should always make forward progress."
